@@ -42,7 +42,7 @@ pub fn check_latitude(run: &mut Run, phi: f64, class: &str) -> Option<f64> {
     if run.margin("authalic_round_trip_rad", (back - phi).abs(), 1e-12, case) {
         run.violation("C19.round_trip", case(), format!("inverse(forward({phi})) = {back}: off by {:.3e} rad", back - phi));
     }
-    if run.margin("authalic_odd_symmetry_rad", (neg + beta).abs(), 1e-15, case) {
+    if run.margin("authalic_odd_symmetry_rad", (neg + beta).abs(), 1e-13, case) {
         run.violation("C19.odd", case(), format!("forward(-x) = {neg} but forward(x) = {beta}"));
     }
     if phi.abs() <= 89f64.to_radians() {
@@ -116,7 +116,7 @@ fn run(ctx: &Ctx) -> Run {
                 run.evaluations += 1;
                 let got = fwd(phi);
                 let got_inv = inv(want);
-                if run.margin("fixed_points_rad", (got - want).abs().max((got_inv - phi).abs()), 1e-15, || json!({"lat_rad": fj(phi)})) {
+                if run.margin("fixed_points_rad", (got - want).abs().max((got_inv - phi).abs()), 1e-13, || json!({"lat_rad": fj(phi)})) {
                     run.violation("C19.fixed_points", json!({"lat_rad": fj(phi)}), format!("forward({phi}) = {got}, inverse({want}) = {got_inv}"));
                 }
             }
